@@ -242,12 +242,19 @@ def main():
     enc_cases, spec_cases, dec_cases = [], [], []
     n = 160 if T == "quick" else 2500
     feat = {}
-    for i in range(n):
+    # corpus (minimised from seeded changes), encoded first with both back ends: records with two String columns whose padded sizes
+    # are permutations of one another from record to record (same total, other split)
+    two_str = ("dataset", "ts0", (("seq", "q", (("base", "n", "i", (), ()), ("base", "s", "S", (), ()), ("base", "t", "S", (), ())),
+                                   ((1, "ab", "abcdefg"), (2, "abcdefg", "ab"), (3, "", "wxyz"), (4, "wxyz", ""), (5, "abcde", "x"))),))
+    corpus = [(two_str, "numpy"), (two_str, "iterdata")]
+    for i in range(n + len(corpus)):
         desc = G.gen_dataset(rng)
         backend = rng.choice(["numpy", "numpy", "iterdata"])
+        if i < len(corpus):
+            desc, backend = corpus[i]
         if not usable(desc, backend):
             continue
-        ce, cdesc = ("", desc) if rng.random() < 0.6 else constrain(rng, desc)
+        ce, cdesc = ("", desc) if rng.random() < 0.6 or i < len(corpus) else constrain(rng, desc)
         for d in G.walk_desc(cdesc):
             key = d[1][0] + ":" + (d[1][2] if d[1][0] == "base" else ("nested" if any(c[0] == "seq" for c in d[1][2]) else "flat"))
             feat[key] = feat.get(key, 0) + 1
